@@ -69,14 +69,6 @@ end shapes
 
 variable {𝕜 : Type} [RCLike 𝕜]
 
-/-- `A v_j - alpha_j v_j - beta_{j-1} v_{j-1}` from the returned data -/
-noncomputable def lanczosResidual (Afun : List 𝕜 → List 𝕜) (alpha beta : List ℝ) (V : Mat 𝕜) (j : Nat) : List 𝕜 :=
-  vsub V.m (Afun (matCol V j))
-    (if 0 < j then
-      vadd V.m (vscale V.m (RealLike.ofReal (alpha.getD j 0)) (matCol V j))
-        (vscale V.m (RealLike.ofReal (beta.getD (j - 1) 0)) (matCol V (j - 1)))
-    else vscale V.m (RealLike.ofReal (alpha.getD j 0)) (matCol V j))
-
 /-- **Lanczos relations.**  Under the norm contract, for a Hermitian map, whatever `lanczos_iteration` returns
 (`k` columns, `k = numiter` or shortened by a breakdown):
 * the first column is the normalised start vector,
@@ -131,13 +123,7 @@ theorem lanczos_full {Afun : List 𝕜 → List 𝕜} {dnorm : List 𝕜 → ℝ
   have hk1 := hf.kpos
   rw [hVn]
   rw [hal] at hs
-  have e : lanczosResidual Afun st.alpha st.beta (colsMat vstart.length st.V) (k - 1) =
-      lzRes Afun vstart.length st (k - 1) := by
-    unfold lanczosResidual lzRes
-    rw [hcol (k - 1) (by omega)]
-    by_cases hj : 0 < k - 1
-    · rw [if_pos hj, if_pos hj, hcol (k - 1 - 1) (by omega)]; rfl
-    · rw [if_neg hj, if_neg hj]; rfl
+  have e := lanczosResidual_eq hf
   rw [e]; exact hs
 
 /-- the Gram–Schmidt residual of `A v_j` against `v_0 … v_j`, from the returned data -/
